@@ -30,7 +30,13 @@ func Str(units []any) string {
 // Base is the instant of datetime rank 0; rank k = Base + k hours.
 var Base = time.Date(2021, 3, 4, 5, 0, 0, 0, time.UTC)
 
-func Date(rank int) time.Time { return Base.Add(time.Duration(rank) * time.Hour) }
+// (rank -1000 and below: the zero time.Time{} -- a stored value like any other, not null)
+func Date(rank int) time.Time {
+	if rank <= -1000 {
+		return time.Time{}
+	}
+	return Base.Add(time.Duration(rank) * time.Hour)
+}
 
 type Item struct {
 	boltz.BaseExtEntity
